@@ -114,6 +114,17 @@ CHECKS = {
             '(found => CanSee, changed/deleted => CanChange, new row owned by caller) and validates it as a model behaviour.',
             'db-api level (REST authorisation is C16); expression functions executions()/tasks() are not covered; sqlite.',
             'TLA+ policy model checked by TLC + exhaustive decision-table replay on real rows with TLC trace validation', '6.5'),
+    'C16': ('rest', 'model_checking',
+            'RestGuard.tla: a request first enforces the documented rule(s) of its operation, a denial ends it with 403 and no effect, only '
+            'then may resource tables be touched or RPCs be sent; guard tables for execution PUT / DELETE and task PUT. Requests for every '
+            'catalogued operation x (allowed | each documented rule denied, incl. list:all_projects and publicize) x resource present/absent '
+            'and every cell of the state-change tables go through the real WSGI app; acl.enforce verdicts, SQL statements per resource '
+            'table, RPC sends, status and a database digest are recorded and judged by TLC (RestGuardTrace: EnforceFirst, AlwaysEnforces, '
+            'DeniedNoEffect, ExecPutGuard, TaskPutGuard, ExecDeleteGuard).',
+            'The catalogue is hand-written against policies.list_rules(); the controller tree is walked to list exposed methods and the '
+            'uncatalogued ones are named in the evidence (code_sources / dynamic_actions writes, members, event trigger writes). Engine RPC '
+            'client is a recorder; keystone off; sqlite.',
+            'TLA+ guard model + request traces through the real WSGI app judged by TLC', '6.6'),
 }
 
 NOT_YET = 'check not built yet (build in progress; see DESIGN.md section 12)'
